@@ -140,7 +140,7 @@ func newWorld(r *simrun.Run, prop string) *world {
 	if w.faultFree {
 		w.timePressure = 0
 	}
-	w.setattrAnon = os.Getenv("VERIF_W9_SETATTR_ANON") != ""
+	w.setattrAnon = os.Getenv("VERIF_W9_SETATTR_ANON") != "0"
 	// Known findings can be steered around, so that the rest of the state
 	// space stays checkable: VERIF_W9_AVOID=dup41,freelocked
 	for _, a := range strings.Split(os.Getenv("VERIF_W9_AVOID"), ",") {
